@@ -1183,3 +1183,25 @@ M('C16', 'corner blocks of earlier axes not extended', 'odl/util/numerics.py',
 M('C07', 'simplex proximal drops the diameter', 'odl/solvers/functional/default_functionals.py',
   "                proj_simplex(x, diameter, out)", "                proj_simplex(x, out=out)",
   'IndicatorSimplex.proximal')
+M('C11', 'landweber calls back before projecting', 'odl/solvers/iterative/iterative.py',
+  """        if projection is not None:
+            projection(x)
+
+        if callback is not None:
+            callback(x)
+
+
+def conjugate_gradient(""",
+  """        if callback is not None:
+            callback(x)
+
+        if projection is not None:
+            projection(x)
+
+
+def conjugate_gradient(""", 'landweber')
+MA('C11', 'adupdates array step without the outer step size',
+   'odl/solvers/nonsmooth/alternating_dual_updates.py', 'adupdates',
+   'step = stepsize * inner_stepsizes[j] if np.isscalar(inner_stepsizes[j]) else stepsize * np.asarray(inner_stepsizes[j])',
+   'step = stepsize * inner_stepsizes[j] if np.isscalar(inner_stepsizes[j]) else np.asarray(inner_stepsizes[j])',
+   'adupdates')
